@@ -238,7 +238,7 @@ impl Prop for Denotation {
         700
     }
     fn cases(&self, tier: Tier) -> u64 {
-        tier.pick(300_000, 6_000_000)
+        tier.pick(300_000, 30_000_000)
     }
     fn generate(&self, g: &mut Gen) -> Case {
         gen_case(g, false)
